@@ -1,12 +1,16 @@
 package rules
 
 import (
+	"fmt"
 	"go/ast"
 	"go/constant"
+	"go/token"
 	"go/types"
 	"regexp"
 	"sort"
 	"strconv"
+
+	"golang.org/x/tools/go/cfg"
 
 	"rocheck/internal/check"
 	"rocheck/internal/model"
@@ -88,6 +92,402 @@ func ruleErrPropagation() check.Rule {
 	}
 }
 
+// siblingReleaseByDefinition: operators whose definition releases other sources while the output goes on.
+var siblingReleaseByDefinition = map[string]string{}
+
+// pathsPassAfter reports whether every CFG path from target to a normal exit of body contains, after target, a node
+// for which pred holds.
+func pathsPassAfter(body *ast.BlockStmt, target ast.Node, pred func(ast.Node) bool) bool {
+	g := cfg.New(body, func(*ast.CallExpr) bool { return true })
+	var tb *cfg.Block
+	ti := -1
+	best := token.Pos(-1)
+	for _, b := range g.Blocks {
+		for i, n := range b.Nodes {
+			if n.Pos() <= target.Pos() && target.End() <= n.End() {
+				if span := n.End() - n.Pos(); best < 0 || span < best {
+					best, tb, ti = span, b, i
+				}
+			}
+		}
+	}
+	if tb == nil {
+		return false
+	}
+	seen := map[int32]bool{}
+	ok := true
+	var dfs func(b *cfg.Block, from int)
+	dfs = func(b *cfg.Block, from int) {
+		if !ok {
+			return
+		}
+		for _, n := range b.Nodes[from:] {
+			if pred(n) {
+				return
+			}
+		}
+		if len(b.Succs) == 0 {
+			ok = false
+			return
+		}
+		for _, sc := range b.Succs {
+			if !seen[sc.Index] {
+				seen[sc.Index] = true
+				dfs(sc, 0)
+			}
+		}
+	}
+	dfs(tb, ti+1)
+	return ok
+}
+
+// NO-PREMATURE-RELEASE
+func ruleNoPrematureRelease() check.Rule {
+	return check.Rule{
+		Name:        "NO-PREMATURE-RELEASE",
+		Doc:         "inside a notification slot of one source, an operator unsubscribes its other sources only on paths that also send a terminal notification to the destination (before or after the release): releasing the siblings while the output goes on loses their remaining values and, when the output's completion depends on them, leaves it open for ever. Operators whose definition releases siblings early are listed with the reason",
+		NeedControl: true,
+		Run: func(c *check.Ctx) {
+			m := c.M
+			isTerminal := func(n ast.Node) bool {
+				found := false
+				ast.Inspect(n, func(x ast.Node) bool {
+					if _, isLit := x.(*ast.FuncLit); isLit {
+						return false
+					}
+					if call, ok := x.(*ast.CallExpr); ok {
+						if sel, ok := ast.Unparen(call.Fun).(*ast.SelectorExpr); ok {
+							if k := notifKind(sel.Sel.Name); (k == 1 || k == 2) && (sel.Sel.Name == "Error" || sel.Sel.Name == "Complete" || sel.Sel.Name == "ErrorWithContext" || sel.Sel.Name == "CompleteWithContext") {
+								found = true
+							}
+						}
+					}
+					return !found
+				})
+				return found
+			}
+			for _, sc := range m.SCs {
+				if len(sc.SubSites) < 2 {
+					continue
+				}
+				armed := c.Armed(sc)
+				ra := analyseRelease(m, sc)
+				// reverse reachability: which sites does releasing node n release?
+				sitesOf := func(n string) map[int]bool {
+					out := map[int]bool{}
+					for _, s := range sc.SubSites {
+						start := fmt.Sprintf("site#%d", s.ID)
+						seen := map[string]bool{}
+						var dfs func(x string) bool
+						dfs = func(x string) bool {
+							if x == n {
+								return true
+							}
+							if seen[x] {
+								return false
+							}
+							seen[x] = true
+							for _, to := range ra.edges[x] {
+								if dfs(to) {
+									return true
+								}
+							}
+							return false
+						}
+						if dfs(start) {
+							out[s.ID] = true
+						}
+					}
+					return out
+				}
+				cnt := map[string]int{}
+				for _, op := range sc.SubOps {
+					if op.Method != "Unsubscribe" || op.Call == nil {
+						continue
+					}
+					// the nearest non-body context must be a source slot
+					var slotCtx *model.Ctx
+					for cx := op.Ctx; cx != nil; cx = cx.Parent {
+						if cx.Kind == model.KBody {
+							continue
+						}
+						if cx.Kind == model.KSrc {
+							slotCtx = cx
+						}
+						break
+					}
+					if slotCtx == nil || slotCtx.Site == nil {
+						continue
+					}
+					n := resNode(op.Pkg.TypesInfo, op.Recv, op.RecvExpr)
+					if n == "" {
+						continue
+					}
+					others := 0
+					for id := range sitesOf(n) {
+						if id != slotCtx.Site.ID {
+							others++
+						}
+					}
+					if others == 0 {
+						continue
+					}
+					c.Inc("sibling_releases_in_slots", 1)
+					base := fmt.Sprintf("%s/%s/release-siblings", sc, model.CtxKey(op.Ctx, op.Slot))
+					cnt[base]++
+					key := fmt.Sprintf("%s#%d", base, cnt[base])
+					if why, ok := siblingReleaseByDefinition[sc.String()]; ok {
+						if armed {
+							c.OK(key, op.Pos, "by definition: %s", why)
+						}
+						continue
+					}
+					// the function that contains the call, then each inlining call site outwards
+					ok := false
+					var fn ast.Node = innermostFunc(m, op.Pkg, op.Call)
+					target := ast.Node(op.Call)
+					for depth := len(op.Stack); fn != nil; depth-- {
+						body := funcBody(fn)
+						if body != nil && (pathsPassBefore(body, target, isTerminal) || pathsPassAfter(body, target, isTerminal)) {
+							ok = true
+							break
+						}
+						if depth <= 0 {
+							break
+						}
+						call := op.Stack[depth-1]
+						target = call
+						fn = innermostFunc(m, op.Pkg, call)
+						if fn == nil {
+							break
+						}
+						// stop once we leave the slot's own function
+					}
+					if ok {
+						if armed {
+							c.OK(key, op.Pos, "the release of the other sources is accompanied by a terminal notification on every path")
+						}
+					} else {
+						c.Report(armed, key, op.Pos, "in the %s slot of one source the operator unsubscribes %d other source(s) on a path that sends no terminal notification to the destination: their remaining values are lost and an output whose completion depends on them never terminates", slotName(op.Slot, slotCtx), others)
+					}
+				}
+			}
+		},
+	}
+}
+
+func slotName(slot int, c *model.Ctx) string {
+	switch slot {
+	case model.SlotNext:
+		return "next"
+	case model.SlotError:
+		return "error"
+	case model.SlotComplete:
+		return "complete"
+	}
+	return "notification"
+}
+
+// RACE-LATE-LOSER (family shape, Race): the sources are subscribed one after another while earlier ones may already
+// notify. A source that is subscribed after the race was decided must be released at once, not merely registered.
+func ruleRaceLateLoser() check.Rule {
+	return check.Rule{
+		Name:        "RACE-LATE-LOSER",
+		FamilyShape: true,
+		Doc:         "in RaceWith, the registration of a freshly returned subscription into the shared holder is control-dependent on a test of the winner variable (the one the notification slots compare-and-swap) evaluated after the subscribe call; with the path-sensitive RELEASE rule this forces the other branch to release a source that lost the race while it was being subscribed",
+		Run: func(c *check.Ctx) {
+			m := c.M
+			sc := m.SCByName("ro.RaceWith")
+			if sc == nil {
+				c.Info("ro.RaceWith/late-loser", m.Obj.Ro.Syntax[0].Pos(), "operator not found (family-shape rule: no alarm)")
+				return
+			}
+			info := sc.Pkg.TypesInfo
+			// winner variable: operand of atomic.CompareAndSwap* inside a source slot
+			var winner types.Object
+			ast.Inspect(sc.Lit.Body, func(n ast.Node) bool {
+				call, ok := n.(*ast.CallExpr)
+				if !ok {
+					return true
+				}
+				if cl := model.Callee(info, call); cl != nil && cl.Pkg() != nil && cl.Pkg().Path() == "sync/atomic" && len(call.Args) > 0 && len(cl.Name()) > 14 && cl.Name()[:14] == "CompareAndSwap" {
+					if id, _ := rootIdent(call.Args[0]); id != nil {
+						winner = objOf(info, id)
+					}
+				}
+				return true
+			})
+			if winner == nil {
+				c.Info("ro.RaceWith/late-loser", sc.Lit.Pos(), "no compare-and-swapped winner variable recognised (family-shape rule: no alarm)")
+				return
+			}
+			var derives func(e ast.Node, depth int) bool
+			derives = func(e ast.Node, depth int) bool {
+				if depth > 4 {
+					return false
+				}
+				found := false
+				ast.Inspect(e, func(x ast.Node) bool {
+					id, ok := x.(*ast.Ident)
+					if !ok || found {
+						return !found
+					}
+					o := objOf(info, id)
+					if o == winner {
+						found = true
+						return false
+					}
+					for _, d := range m.Defs[o] {
+						if d.Expr != nil && derives(d.Expr, depth+1) {
+							found = true
+						}
+					}
+					return !found
+				})
+				return found
+			}
+			n := 0
+			for _, st := range sc.Stores {
+				if st.Val == nil || st.Val.Kind != model.AVSub || st.Ctx == nil || st.Ctx.Kind != model.KBody {
+					continue
+				}
+				if _, isIdx := ast.Unparen(st.LHS).(*ast.IndexExpr); !isIdx {
+					continue
+				}
+				n++
+				key := fmt.Sprintf("ro.RaceWith/register#%d/late-loser", n)
+				site := st.Val.Site
+				fn := innermostFunc(m, st.Pkg, st.Node)
+				body := funcBody(fn)
+				guarded := !guardedByEdge(body, st.Node, func(cond ast.Expr, polarity bool) bool { return false }) &&
+					guardedByEdge(body, st.Node, func(cond ast.Expr, polarity bool) bool {
+						return cond.Pos() > site.Call.End() && derives(cond, 0)
+					})
+				if guarded {
+					c.OK(key, st.Pos, "registration depends on a test of the winner variable made after the subscribe call")
+				} else {
+					c.Violation(key, st.Pos, "the subscription is registered without re-testing the winner variable %s after the subscribe call: a source subscribed after another one has already won is kept subscribed until the winner's next notification (which may never come) instead of being released at once", winner.Name())
+				}
+			}
+			c.Inc("race_registrations", n)
+			c.Note("RACE-LATE-LOSER recognised=%d registrations", n)
+		},
+	}
+}
+
+// flattenOf: which flattening operator an operator defined by composition must delegate to (instances confirmed by
+// reading and frozen: the name says merge or concat; ro's FlatMap is the sequential, concat-map flattening).
+func flattenOf(name string) string {
+	switch {
+	case len(name) >= 7 && name[:7] == "FlatMap":
+		return "ConcatAll"
+	case len(name) >= 6 && name[:6] == "Concat":
+		return "ConcatAll"
+	case len(name) >= 5 && name[:5] == "Merge":
+		return "MergeAll"
+	}
+	return ""
+}
+
+// COMPOSITION (family shape): operators defined as a composition over MergeAll / ConcatAll use the one of their definition.
+func ruleComposition() check.Rule {
+	return check.Rule{
+		Name:        "COMPOSITION",
+		FamilyShape: true,
+		Doc:         "every Merge*/Concat*/FlatMap* operator that is implemented by delegating to a flattening operator delegates to the one of its definition (Merge* -> MergeAll: concurrent inner subscriptions; Concat*, FlatMap* -> ConcatAll: the next inner is subscribed only after the previous completed); an operator that does not delegate is not judged",
+		Run: func(c *check.Ctx) {
+			m := c.M
+			p := m.Obj.Ro
+			info := p.TypesInfo
+			n := 0
+			for _, f := range p.Syntax {
+				for _, d := range f.Decls {
+					fd, ok := d.(*ast.FuncDecl)
+					if !ok || fd.Recv != nil || fd.Body == nil || !fd.Name.IsExported() {
+						continue
+					}
+					want := flattenOf(fd.Name.Name)
+					if want == "" || fd.Name.Name == want {
+						continue
+					}
+					ast.Inspect(fd.Body, func(x ast.Node) bool {
+						call, ok := x.(*ast.CallExpr)
+						if !ok {
+							return true
+						}
+						cl := model.Callee(info, call)
+						if cl == nil || !(model.IsPkgFunc(cl, ro, "MergeAll") || model.IsPkgFunc(cl, ro, "ConcatAll")) {
+							return true
+						}
+						n++
+						key := "ro." + fd.Name.Name + "/flatten"
+						if cl.Name() == want {
+							c.OK(key, call.Pos(), "delegates to %s", want)
+						} else {
+							c.Violation(key, call.Pos(), "%s is defined over %s but delegates to %s: inner observables are %s", fd.Name.Name, want, cl.Name(),
+								map[string]string{"MergeAll": "subscribed concurrently and their values interleave instead of following one another", "ConcatAll": "subscribed one after another instead of concurrently"}[cl.Name()])
+						}
+						return true
+					})
+				}
+			}
+			c.Inc("flatten_delegations", n)
+			c.Note("COMPOSITION recognised=%d delegations", n)
+		},
+	}
+}
+
+// SEQUENTIAL-INNER-GUARD: a sequential flattener (the inner subscription is awaited inside the outer source's next
+// slot) must not subscribe the next inner once the output has ended.
+func ruleSequentialInnerGuard() check.Rule {
+	return check.Rule{
+		Name: "SEQUENTIAL-INNER-GUARD",
+		Doc:  "where an operator subscribes an inner observable inside the next slot of its outer source and awaits it there (sequential flattening: ConcatAll and everything built on it), the inner subscribe site is dominated by a not-closed test of a subscription: an outer source that emits synchronously is still inside its own Subscribe call when an inner fails, so it cannot have been unsubscribed yet and would otherwise go on to subscribe the next inner after the output has ended",
+		Run: func(c *check.Ctx) {
+			m := c.M
+			n := 0
+			for _, sc := range m.SCs {
+				armed := c.Armed(sc)
+				for _, s := range sc.SubSites {
+					if s.Ctx == nil || s.Ctx.Kind != model.KSrc || s.Slot != model.SlotNext || s.Src == nil || !s.Src.Awaited {
+						continue
+					}
+					n++
+					key := s.Key + "/guarded-by-open-test"
+					info := s.Pkg.TypesInfo
+					notClosed := func(cond ast.Expr, polarity bool) bool {
+						e := ast.Unparen(cond)
+						if u, ok := e.(*ast.UnaryExpr); ok && u.Op == token.NOT {
+							e, polarity = ast.Unparen(u.X), !polarity
+						}
+						call, ok := e.(*ast.CallExpr)
+						if !ok {
+							return false
+						}
+						sel, ok := ast.Unparen(call.Fun).(*ast.SelectorExpr)
+						if !ok || sel.Sel.Name != "IsClosed" {
+							return false
+						}
+						if t := info.TypeOf(sel.X); t == nil || !(model.IsNamed(t, m.Obj.Subscription) || model.IsNamed(t, m.Obj.Observer) || model.IsNamed(t, m.Obj.Subscriber)) {
+							return false
+						}
+						return !polarity // the edge on which IsClosed() is false
+					}
+					body := funcBody(innermostFunc(m, s.Pkg, s.Call))
+					if guardedByEdge(body, s.Call, notClosed) {
+						if armed {
+							c.OK(key, s.Pos, "the inner observable is subscribed only while the operator's subscription is still open")
+						}
+					} else {
+						c.Report(armed, key, s.Pos, "the next inner observable is subscribed without testing that the output is still open: after an inner error (or an early unsubscription) a synchronously emitting outer source makes the operator subscribe the following inner observables although the output has ended")
+					}
+				}
+			}
+			c.Inc("sequential_inner_sites", n)
+		},
+	}
+}
+
 var arityRe = regexp.MustCompile(`^ro\.(CombineLatestWith|ZipWith)([0-9]+)$`)
 
 // ARITY: the fixed-arity families agree with their own arity.
@@ -144,6 +544,74 @@ func ruleArity() check.Rule {
 							}
 						}
 					}
+				}
+				if mt[1] == "ZipWith" {
+					// state groups: the variables handed together (by address) to one helper call belong to one source
+					group := map[types.Object]int{}
+					ng := 0
+					ast.Inspect(sc.Lit.Body, func(n ast.Node) bool {
+						call, ok := n.(*ast.CallExpr)
+						if !ok {
+							return true
+						}
+						var objs []types.Object
+						for _, a := range call.Args {
+							if u, ok := ast.Unparen(a).(*ast.UnaryExpr); ok && u.Op == token.AND {
+								if id, ok := ast.Unparen(u.X).(*ast.Ident); ok {
+									if v, isVar := objOf(info, id).(*types.Var); isVar && !isSyncSafeType(v.Type()) {
+										objs = append(objs, v)
+									}
+								}
+							}
+						}
+						if len(objs) >= 2 {
+							ng++
+							for _, o := range objs {
+								group[o] = ng
+							}
+						}
+						return true
+					})
+					lenZeroOf := func(e ast.Expr) types.Object {
+						be, ok := ast.Unparen(e).(*ast.BinaryExpr)
+						if !ok || be.Op != token.EQL {
+							return nil
+						}
+						for _, pair := range [][2]ast.Expr{{be.X, be.Y}, {be.Y, be.X}} {
+							if call, ok := ast.Unparen(pair[0]).(*ast.CallExpr); ok && len(call.Args) == 1 && constIs(info, pair[1], 0) {
+								if fid, ok := ast.Unparen(call.Fun).(*ast.Ident); ok && fid.Name == "len" {
+									if id, ok := ast.Unparen(call.Args[0]).(*ast.Ident); ok {
+										return objOf(info, id)
+									}
+								}
+							}
+						}
+						return nil
+					}
+					pairs := 0
+					ast.Inspect(sc.Lit.Body, func(n ast.Node) bool {
+						be, ok := n.(*ast.BinaryExpr)
+						if !ok || be.Op != token.LAND {
+							return true
+						}
+						for _, pair := range [][2]ast.Expr{{be.X, be.Y}, {be.Y, be.X}} {
+							fid, ok := ast.Unparen(pair[0]).(*ast.Ident)
+							if !ok {
+								continue
+							}
+							flag, queue := objOf(info, fid), lenZeroOf(pair[1])
+							if queue == nil || group[flag] == 0 || group[queue] == 0 {
+								continue
+							}
+							pairs++
+							if group[flag] != group[queue] {
+								bad = true
+								c.Violation(key+"/completion-pairing", be.Pos(), "the completion test pairs the finished-flag %s of one source with the queue %s of another: the output completes when the wrong queue is drained (or never)", flag.Name(), queue.Name())
+							}
+						}
+						return true
+					})
+					c.Inc("zip_completion_pairs", pairs)
 				}
 				if mt[1] == "CombineLatestWith" {
 					// constants used with the status counter
@@ -234,6 +702,21 @@ func verifControlErrSwallowed[T, S any](signal Observable[S]) func(Observable[T]
 		})
 	}
 }
+
+func verifControlPrematureRelease[T, S any](other Observable[S]) func(Observable[T]) Observable[T] {
+	return func(source Observable[T]) Observable[T] {
+		return NewObservableWithContext(func(subscriberCtx context.Context, destination Observer[T]) Teardown {
+			subscriptions := NewSubscription(nil)
+			subscriptions.AddUnsubscribable(source.SubscribeWithContext(subscriberCtx, NewObserverWithContext(
+				destination.NextWithContext, destination.ErrorWithContext, destination.CompleteWithContext)))
+			subscriptions.AddUnsubscribable(other.SubscribeWithContext(subscriberCtx, NewObserverWithContext(
+				func(ctx context.Context, value S) {},
+				destination.ErrorWithContext,
+				func(ctx context.Context) { subscriptions.Unsubscribe() })))
+			return subscriptions.Unsubscribe
+		})
+	}
+}
 `
 
 func C05() *check.Property {
@@ -242,13 +725,13 @@ func C05() *check.Property {
 		Title:    "Multi-source operators honour every arrival order of their inputs",
 		Patterns: CorePatterns,
 		Scope:    []string{ro},
-		Rules:    []check.Rule{ruleErrPropagation(), ruleArity()},
+		Rules:    []check.Rule{ruleErrPropagation(), ruleArity(), ruleNoPrematureRelease(), ruleRaceLateLoser(), ruleComposition(), ruleSequentialInnerGuard()},
 		Explanation: "Narrow structural claim. Arrival orders are run-time histories and are NOT decided. Two necessary conditions are: ERR-PROPAGATION — 'an error from any source ends the output at once': for every upstream subscribe site of every operator " +
-			"(multi-source ones included) the observer's error slot reaches an Error notification to the destination, or the operator's definition consumes the error (listed with reasons); partial observers that swallow errors are reported. ARITY — the fixed-arity " +
+			"(multi-source ones included) the observer's error slot reaches an Error notification to the destination, or the operator's definition consumes the error (listed with reasons); partial observers that swallow errors are reported. NO-PREMATURE-RELEASE — 'nothing is lost, completion comes when the definition says': inside a notification slot of one source the other sources are unsubscribed only on paths that also terminate the output. ARITY — the fixed-arity " +
 			"CombineLatestWithK/ZipWithK families subscribe K+1 distinct sources, build K+1-tuples from K+1 distinct variables and (CombineLatest) use only counter constants consistent with K+1 sources.",
-		NotDecided:  "the output assigned to each interleaving (ordering, completion timing, loss/duplication) for merge, concat, combine-latest, zip, race, buffer/window/sample/throttle-when, group-by, flat-map — in particular ZipAll's early outer completion and zipInnerSubscription's shared-composite unsubscribe (DESIGN.md section 7) are outside these rules.",
+		NotDecided:  "the output assigned to each interleaving (ordering, completion timing, loss/duplication) for merge, concat, combine-latest, zip, race, buffer/window/sample/throttle-when, group-by, flat-map — in particular ZipAll's early outer completion (DESIGN.md section 7) is outside these rules.",
 		Assumptions: []string{"the destination's subscriber closes on the first terminal notification (C01) and its teardown releases the other sources (C03)"},
-		Floors:      map[string]int{"sites_checked": 140, "sites_of_multi_source_operators": 50},
+		Floors:      map[string]int{"sites_checked": 140, "sites_of_multi_source_operators": 50, "sibling_releases_in_slots": 30},
 		Controls:    map[string]string{"zz_verif_controls_c05.go": roControl(controlsC05)},
 	}
 }
